@@ -283,7 +283,7 @@ def run(prog: Program, L: Ledger) -> None:
         comp_samples.append(("add", ("leaf", 0), ("leaf", 0)))
         comp_samples.append(("add", ("leaf", 0), ("leaf", min(2, nk - 1))))
         for base in comp_samples:
-            for n in (0, -1, 2.5, "2"):
+            for n in (0, -1, 2.5, "2", 2.0, 1.0):
                 for refl in (False, True):
                     try:
                         o, _, _ = w.evaluate(base)
@@ -299,7 +299,7 @@ def run(prog: Program, L: Ledger) -> None:
                     txt = tree_text(base, w.names)
                     expr = f"{n!r} * {txt}" if refl else f"{txt} * {n!r}"
                     L.check(raised, "A3", f"{family}:{o.cls.name}.__{'r' if refl else ''}mul__[n={n!r}]", _where(prog, family),
-                            f"`{expr}` does not raise: a composite with {'no' if n in (0, -1) else 'an ill-defined number of'} elements is built",
+                            f"`{expr}` does not raise: " + ("a composite with no elements is built" if n in (0, -1) and not isinstance(n, float) else "a repeat count that is not an integer is accepted"),
                             expr, f"n={n!r}")
     L.extra["trees_total"] = total
     L.floor("expression trees evaluated", total, 2000)
